@@ -1,4 +1,5 @@
 import Nstd.Path.FsDtype
+import Nstd.Path.FsDtypeExact
 import Nstd.Path.FsTruth
 import Nstd.Path.FsProps
 import Nstd.Path.FsListPat
@@ -124,6 +125,36 @@ theorem history_unlink_any_dtype_stays_in_resolved_tree (unk : Bytes → Bool) (
 theorem unlink_known_dtype_is_unlink (fs : Fs) (dir : Bytes) (recursive : Bool) :
     dirUnlinkTopU (fun _ => false) fs dir recursive = dirUnlinkTop fs dir recursive :=
   dirUnlinkU_known _ recursive fs dir
+
+/-- Whatever `readdir` reports as `d_type`: on a plain path of a well-formed world Directory::unlink (recursive or not)
+    does exactly what it does on a file system that reports every type — `lstat` of `dir/name` finds the very entry
+    `readdir` listed, so every entry takes the same branch (a symbolic link is a non-directory for lstat: it is
+    removed as a link, its target is never touched). -/
+theorem unlink_any_dtype_is_unlink (unk : Bytes → Bool) (fs : Fs) (hwf : WF fs) (dir : Bytes) (d : CPath)
+    (hpp : PlainParent fs dir d) (recursive : Bool) :
+    dirUnlinkTopU unk fs dir recursive = dirUnlinkTop fs dir recursive :=
+  dirUnlinkU_eq unk _ recursive fs dir d hwf hpp
+
+/-- Recursive unlink removes exactly the given tree ON ANY FILE SYSTEM: for every `d_type` reporting, in a well-formed
+    world, recursive Directory::unlink of an existing directory given by a plain path (not the working directory or
+    an ancestor of it) succeeds; afterwards no path of the tree at `d` exists and every other path — the targets of
+    the symbolic links of the tree included — is unchanged. -/
+theorem unlink_any_dtype_removes_exactly_tree (unk : Bytes → Bool) (fs : Fs) (dir : Bytes) (d : CPath)
+    (hwf : WF fs) (hpp : PlainParent fs dir d) (hg : fs.get d = some .dir) (hcw : d.isPrefixOf cwd = false) :
+    (dirUnlinkTopU unk fs dir true).2 = true ∧
+    ∀ q, (d <+: q → (dirUnlinkTopU unk fs dir true).1.get q = none) ∧
+         (¬ (d <+: q) → (dirUnlinkTopU unk fs dir true).1.get q = fs.get q) := by
+  rw [unlink_any_dtype_is_unlink unk fs hwf dir d hpp true]
+  exact unlink_removes_exactly_tree fs dir d hwf hpp hg hcw
+
+/-- … after any history of operations. -/
+theorem history_unlink_any_dtype_removes_exactly_tree (unk : Bytes → Bool) (ops : List FsOp) (dir : Bytes) (d : CPath)
+    (hpp : PlainParent (fsRun initFs ops) dir d) (hg : (fsRun initFs ops).get d = some .dir)
+    (hcw : d.isPrefixOf cwd = false) :
+    (dirUnlinkTopU unk (fsRun initFs ops) dir true).2 = true ∧
+    ∀ q, (d <+: q → (dirUnlinkTopU unk (fsRun initFs ops) dir true).1.get q = none) ∧
+         (¬ (d <+: q) → (dirUnlinkTopU unk (fsRun initFs ops) dir true).1.get q = (fsRun initFs ops).get q) :=
+  unlink_any_dtype_removes_exactly_tree unk _ dir d (wf_run ops).1 hpp hg hcw
 
 /-- Directory::open(dir, pattern, dirsOnly) + Directory::read, on a file system with ANY `d_type` reporting (`unk`), for
     every path string in every well-formed world: the listing is the full listing (no pattern, dirsOnly = false, all
